@@ -443,7 +443,8 @@ Section WithHash.
     end.
 
   Definition deploy_interchain_token_ep (w : iworld) (c : ictx) (salt name symbol : bytes) (decimals supply : N) (minter : bytes) : option (iworld * list bytes * list log) :=
-    if negb (Nat.eqb (length salt) 32) || negb (Nat.eqb (length minter) 32) || (255 <? decimals) then None else
+    (* payable("EGLD"): an ESDT payment is refused by the framework before the body runs *)
+    if negb (has_no_esdt (ic_value c)) || negb (Nat.eqb (length salt) 32) || negb (Nat.eqb (length minter) 32) || (255 <? decimals) then None else
     let s := iw_its w in
     if i_paused s then None else
     let deploy_salt := interchain_salt s (ic_caller c) salt in
